@@ -238,6 +238,7 @@ func (fc *FnCtx) call(ins ssa.Instruction, cc *ssa.CallCommon) {
 		if def := fc.eng.specFnDef(callee, fc.mode); def.Err == "" {
 			fc.calledRepo[callee] = true
 			setRes(fc.specFnCallSSA(callee, args))
+			fc.helperSafety(callee, args, pos)
 			return
 		}
 	}
